@@ -67,6 +67,6 @@ package state_machines
 //@   ensures result1 == nil ==> fresh(result0)
 //@   ensures[C19.restore.machine] result1 == nil ==> result0 != nil && result0.machine != nil && result0.dump != nil
 
-// A cancelled round never moves again: in the proposal and key-generation machines no transition leaves a cancelled
-// state and no machine starts in one (decided on the tables produced by the real constructors, one obligation per state).
+// A cancelled round stays cancelled: in the proposal and key-generation machines every transition from a cancelled
+// state leads to a cancelled state and no machine starts in one (decided on the tables produced by the real constructors).
 //@ tables[C05.terminal] terminal signature_proposal_fsm dkg_proposal_fsm
